@@ -789,3 +789,154 @@ seeded("z3-line-swapped-column", ["C18"], "Z3", [(P, '''                self.lex
                 len(tvalue),''')])
 seeded("z4-eager-token-list", ["C18"], "Z4", [(P, "for ttype, tvalue in self.lexer.scan(text):", "for ttype, tvalue in list(self.lexer.scan(text)):")], "every verdict unchanged; all positions point at the end of input")
 benign("c18-count-with-bounds", ["C18", "C02"], [(P, '''return self.text[: self.pos].count(b"\\n") + 1''', '''return 1 + self.text.count(b"\\n", 0, self.pos)''')])
+
+# --------------------------------------------------------------------------- C01
+seeded("l1-identifier-no-underscore", ["C01"], "L1", [(P, '''(b"identifier", rb"[a-zA-Z_][\\w]*"),''', '''(b"identifier", rb"[a-zA-Z][\\w]*"),''')])
+seeded("l1-number-upper-only", ["C01"], "L1", [(P, '''rb"[0-9]+[KMGkmg]?"''', '''rb"[0-9]+[KMG]?"''')], "`10k` becomes number + identifier")
+seeded("l1-string-no-escape", ["C01"], "L1", [(P, '''(b"string", rb'"([^"\\\\]|\\\\.)*"'),''', '''(b"string", rb'"[^"]*"'),''')])
+seeded("l1-comment-greedy", ["C01"], "L1", [(P, '''rb"/\\*[\\s\\S]*?\\*/"''', '''rb"/\\*[\\s\\S]*\\*/"''')], "two comments swallow the code between them")
+seeded("l1-tag-digits-first", ["C01"], "L1", [(P, '''(b"tag", rb":[a-zA-Z_][\\w]*"),''', '''(b"tag", rb":[\\w]+"),''')])
+seeded("l1-ws-no-formfeed", ["C01"], "L1", [(P, '''re.compile(rb"\\s+", re.M)''', '''re.compile(rb"[ \\t\\r\\n]+", re.M)''')])
+seeded("l2-identifier-before-multiline", ["C01"], "L2", [(P, '''        (b"multiline", rb"text:[\\s\\S]*?\\n\\.\\r?$"),
+        (b"string", rb'"([^"\\\\]|\\\\.)*"'),
+        (b"identifier", rb"[a-zA-Z_][\\w]*"),''', '''        (b"identifier", rb"[a-zA-Z_][\\w]*"),
+        (b"multiline", rb"text:[\\s\\S]*?\\n\\.\\r?$"),
+        (b"string", rb'"([^"\\\\]|\\\\.)*"'),''')])
+seeded("l3-multiline-flag-dropped", ["C01"], "L3", [(P, "self.regexp = re.compile(self.regexpString, re.MULTILINE)", "self.regexp = re.compile(self.regexpString)")])
+seeded("l3-ignorecase-added", ["C01"], "L3", [(P, "self.regexp = re.compile(self.regexpString, re.MULTILINE)", "self.regexp = re.compile(self.regexpString, re.MULTILINE | re.DOTALL)")])
+seeded("l4-identifier-lowercase-only", ["C01"], "L4", [(P, '''(b"identifier", rb"[a-zA-Z_][\\w]*"),''', '''(b"identifier", rb"[a-z_][\\w]*"),''')])
+seeded("t1-matches-removed", ["C01"], "T1", [(C, '''    "values": [":is", ":contains", ":matches"],''', '''    "values": [":is", ":contains"],''')])
+seeded("t1-address-part-extra", ["C01"], "T1", [(C, '''    "values": [":localpart", ":domain", ":all"],''', '''    "values": [":localpart", ":domain", ":all", ":user"],''')])
+seeded("t1-days-takes-string", ["C01"], "T1", [(C, '''            "values": [":days"],
+            "extra_arg": {"type": "number"},''', '''            "values": [":days"],
+            "extra_arg": {"type": "string"},''')])
+seeded("t1-else-after-else", ["C01"], "T1", [(C, '''class ElseCommand(ControlCommand):
+    accept_children = True
+    must_follow = ["if", "elsif"]''', '''class ElseCommand(ControlCommand):
+    accept_children = True
+    must_follow = ["if", "elsif", "else"]''')])
+seeded("t1-redirect-address-optional", ["C01"], "T1", [(C, '''{"name": "address", "type": ["string"], "required": True},''', '''{"name": "address", "type": ["string", "stringlist"], "required": True},''')])
+seeded("t1-size-args-swapped", ["C01"], "T1", [(C, '''        {
+            "name": "comparator",
+            "type": ["tag"],
+            "values": [":over", ":under"],
+            "required": True,
+        },
+        {"name": "limit", "type": ["number"], "required": True},''', '''        {"name": "limit", "type": ["number"], "required": True},
+        {
+            "name": "comparator",
+            "type": ["tag"],
+            "values": [":over", ":under"],
+            "required": True,
+        },''')])
+seeded("t1-comparator-value-dropped", ["C01"], "T1", [(C, '''"values": ['"i;octet"', '"i;ascii-casemap"']},''', '''"values": ['"i;ascii-casemap"']},''')])
+seeded("t2-tag-value-uppercase", ["C01", "C20"], {"C01": "T2", "C20": "T2"}, [(C, '''"values": [":mime"], "required": False},''', '''"values": [":MIME"], "required": False},''')])
+seeded("t3-not-without-expected-first", ["C01"], "T3", [(C, '''    args_definition = [{"name": "test", "type": ["test"], "required": True}]
+
+    def get_expected_first(self):
+        return ["identifier"]
+''', '''    args_definition = [{"name": "test", "type": ["test"], "required": True}]
+''')])
+seeded("p1-stringlist-verdict-dropped", ["C01", "C03"], "P1", [(P, '''            if not self.__curcommand.check_next_arg(
+                "stringlist", self.__curstringlist
+            ):
+                return False''', '''            self.__curcommand.check_next_arg("stringlist", self.__curstringlist)''')], "pre-fix behaviour")
+seeded("p1-addchild-verdict-dropped", ["C01", "C03"], "P1", [(P, '''                if not self.__curcommand.addchild(command):
+                    raise ParseError(
+                        "%s unexpected after a %s" % (tvalue, self.__curcommand.name)
+                    )''', '''                self.__curcommand.addchild(command)''')])
+seeded("p2-pending-command-accepted", ["C01", "C03"], "P2", [(P, '''            if self.__curcommand is not None:
+                raise ParseError(
+                    "end of script reached while semicolon or block expected"
+                )
+''', '')], "pre-fix behaviour")
+seeded("p2-expected-not-checked-at-eof", ["C01", "C03"], "P2", [(P, '''            if self.__expected is not None:
+                raise ParseError(
+                    "end of script reached while %s expected"
+                    % "|".join(self.__expected)
+                )
+''', '')])
+seeded("p3-test-as-command", ["C01"], "P3", [(P, '''            if command.get_type() == "test":
+                raise ParseError("%s may not appear as a first command" % command.name)
+''', '')])
+seeded("p3-action-as-test", ["C01"], "P3", [(P, '''            if test.get_type() != "test":
+                raise ParseError(
+                    "Expected test command, '{}' found instead".format(test.name)
+                )
+''', '')])
+seeded("p4-parenthesis-pushes-bracket", ["C01"], "P4", [(P, '''self.__push_expected_bracket("right_parenthesis", b")")''', '''self.__push_expected_bracket("right_bracket", b")")''')])
+seeded("p4-pop-accepts-mismatch", ["C01"], "P4", [(P, '''        if ttype != etype:
+            raise ParseError(
+                "unexpected closing bracket %s (expected %s)" % (tvalue, evalue)
+            )''', '''        if ttype != etype and evalue is None:
+            raise ParseError(
+                "unexpected closing bracket %s (expected %s)" % (tvalue, evalue)
+            )''')])
+seeded("p4-block-close-without-pop", ["C01"], "P4", [(P, '''            if ttype == "right_cbracket":
+                self.__pop_expected_bracket(ttype, tvalue)
+                self.__up()''', '''            if ttype == "right_cbracket":
+                self.__up()''')])
+seeded("p5-block-on-any-command", ["C01", "C03"], "P5", [(P, '''            condition = (
+                self.__curcommand.get_type() == "control"
+                and self.__curcommand.accept_children
+            )
+            if not condition:
+                return False
+            self.__push_expected_bracket("right_cbracket", b"}")''', '''            self.__push_expected_bracket("right_cbracket", b"}")''')], "pre-fix behaviour")
+seeded("p9-semicolon-after-else", ["C01", "C03"], "P9", [(P, '''            if self.__curcommand.accept_children:
+                return False
+            self.__cstate = None
+            if not self.__check_command_completion''', '''            self.__cstate = None
+            if not self.__check_command_completion''')], "pre-fix behaviour")
+seeded("p6-must-follow-after-record", ["C01"], "P6", [(P, '''        if self.__curcommand.must_follow is not None:
+            if not self.__curcommand.parent:''', '''        if self.__curcommand.must_follow is not None and self.__curcommand.parent:
+            if not self.__curcommand.parent:''')], "top-level else/elsif no longer need a preceding if")
+seeded("p6-predecessor-off-by-one", ["C01"], "P6", [(P, '''                    self.__curcommand.parent.children[-2]
+                    if len(self.__curcommand.parent.children) >= 2''', '''                    self.__curcommand.parent.children[-1]
+                    if len(self.__curcommand.parent.children) >= 2''')])
+seeded("p7-expected-ignored-for-identifiers", ["C01"], "P7", [(P, '''                    if ttype not in self.__expected:''', '''                    if ttype not in self.__expected and ttype != "identifier":''')])
+seeded("p8-lookup-case-sensitive", ["C01"], "P8", [(C, '''    cname = "%sCommand" % name.lower().capitalize()''', '''    cname = "%sCommand" % name.capitalize()''')], "str.capitalize lower-cases the rest, so only the check for .lower() is structural... `IF` still works; kept as checker test")
+seeded("g2-pending-fallthrough", ["C01", "C20"], "G2", [(C, '''                self.curarg = None
+                return True
+            raise BadValue(self.curarg["name"], avalue)''', '''                self.curarg = None
+                return True
+            self.curarg = None''')], "a wrong-typed tag parameter is re-read as an ordinary argument")
+seeded("g2-pending-not-cleared", ["C01", "C20"], "G2", [(C, '''                    self.extra_arguments[self.curarg["name"]] = avalue
+                self.curarg = None
+                return True''', '''                    self.extra_arguments[self.curarg["name"]] = avalue
+                return True''')])
+seeded("g4-required-type-unchecked", ["C01", "C20"], "G4", [(C, '''                elif not self.__is_valid_type(
+                    atype, curarg["type"]
+                ) or not self.__is_valid_value_for_arg(curarg, avalue, check_extension):''', '''                elif not self.__is_valid_value_for_arg(curarg, avalue, check_extension):''')], "`redirect 10;` accepted")
+seeded("g4-param-values-unchecked", ["C01", "C20"], "G4", [(C, '''            condition = atype in self.curarg["extra_arg"]["type"] and (
+                "values" not in self.curarg["extra_arg"]
+                or avalue in self.curarg["extra_arg"]["values"]
+            )''', '''            condition = atype in self.curarg["extra_arg"]["type"]''')], "`:comparator \"i;bogus\"` accepted")
+seeded("g5-failed-not-raised", ["C01", "C20"], "G5", [(C, '''        if failed:
+            raise BadArgument(self.name, avalue, self.args_definition[pos]["type"])
+        return True''', '''        if failed and add:
+            raise BadArgument(self.name, avalue, self.args_definition[pos]["type"])
+        return True''')])
+seeded("g6-values-case-sensitive", ["C01", "C20"], "G6", [(C, '''        if "values" in arg and value.lower() in arg["values"]:''', '''        if "values" in arg and value in arg["values"]:''')], "no upper-case tag in the suite")
+benign("c01-hash-comment-no-dollar", ["C01", "C02"], [(P, '''(b"hash_comment", rb"#.*$"),''', '''(b"hash_comment", rb"#[^\\n]*"),''')], "same token extents")
+benign("c01-identifier-explicit-class", ["C01", "C02"], [(P, '''(b"identifier", rb"[a-zA-Z_][\\w]*"),''', '''(b"identifier", rb"[A-Za-z_][A-Za-z0-9_]*"),''')])
+benign("c01-string-noncapturing", ["C01", "C02", "C04"], [(P, '''(b"string", rb'"([^"\\\\]|\\\\.)*"'),''', '''(b"string", rb'"(?:[^"\\\\]|\\\\[^\\n])*"'),''')])
+benign("c01-optional-slots-reordered", ["C01", "C07"], [(C, '''class HeaderCommand(TestCommand):
+    args_definition = [
+        comparator,
+        match_type,''', '''class HeaderCommand(TestCommand):
+    args_definition = [
+        match_type,
+        comparator,''')])
+benign("c01-table-dict-inlined", ["C01", "C07", "C13"], [(C, '''class AddressCommand(TestCommand):
+    args_definition = [
+        comparator,
+        address_part,''', '''class AddressCommand(TestCommand):
+    args_definition = [
+        comparator,
+        {
+            "name": "address-part",
+            "values": [":localpart", ":domain", ":all"],
+            "type": ["tag"],
+            "required": False,
+        },''')])
